@@ -193,6 +193,10 @@ def guard1(ctx, prog, cfg):
                 if base_ok and rng_ok:
                     ok = True
             why = "drop_in_place argument is `%s`" % mir.fmt(e, g)
+    dips = [b for b, t in g.calls(False) if mir.callee_path(t) == common.DROP_IN_PLACE]
+    ctx.check(bool(dips) and g.must_pass(None, dips, set(g.return_blocks())), "GUARD1", g.short, "destroys on every path", g.loc,
+              "Guard::drop can return without reaching its drop_in_place (an early return keyed on the element type, its size or anything "
+              "else): the clones made before a panicking clone are leaked", "drop_in_place bb%s on every path to the return" % dips, cfg)
     ctx.check(ok, "GUARD1", g.short, "destroys dst[..initialized]", g.loc,
               "Guard::drop does not destroy exactly `dst[..initialized]`: %s" % why,
               "drop_in_place(&mut dst[..initialized] as *mut [T])", cfg)
